@@ -93,6 +93,11 @@ def _install_key_stub():
                 return len(self._params.key_data) * 8
             raise NotImplementedError(name)
 
+        @property
+        def der(self):     # a deterministic encoding of the parameters (stands in for the DER of the real key)
+            import attr as _attr  # pylint: disable=import-outside-toplevel
+            return repr(_attr.astuple(self._params, recurse=False)).encode('ascii', 'replace')
+
         def _asdict(self):
             return {}
 
@@ -313,6 +318,23 @@ def key_sizes():
         if record.key_tag != ref.key_tag(wire):
             problems.append('%s: key tag %d, RFC 4034 Appendix B gives %d (RDATA of %d bytes)' % (
                 what, record.key_tag, ref.key_tag(wire), len(wire)))
+    # RFC 3110: exponent length in one octet up to 255 bytes, zero + two octets above
+    for explen in (1, 3, 254, 255, 256, 300):
+        exponent = (1 << (8 * explen - 1)) + 1
+        modulus = (1 << 1023) + 12345
+        wire = ref.dnskey(0x0100, 3, 8, ref.rsa_key(exponent, explen, modulus, 128))
+        try:
+            record = DnsRecordDnskey.parse_exact_size(wire)
+        except Exception as exc:  # pylint: disable=broad-except
+            problems.append('RSA key with %d-byte exponent rejected: %s' % (explen, type(exc).__name__))
+            continue
+        if (record.key.params.public_exponent, record.key.params.modulus) != (exponent, modulus):
+            problems.append('RSA key with %d-byte exponent: parameters differ' % explen)
+        if bytes(record.compose()) != wire:
+            problems.append('RSA key with %d-byte exponent: composes to length form %s, RFC 3110 %s' % (
+                explen, bytes(record.compose())[4:7].hex(), wire[4:7].hex()))
+        elif len(wire) % 2 == 0 and record.key_tag != ref.key_tag(wire):
+            problems.append('RSA key with %d-byte exponent: key tag' % explen)
     return problems
 
 
